@@ -160,6 +160,8 @@ class P(Prop):
         (M, "TV.C11.split_limit_sublist", "the kept pieces are a sub-sequence of the plain pieces and their observations a sub-sequence of the track (order kept, nothing twice)"),
         (M, "TV.C11.split_limit_zero", "limit = 0 is the plain split whatever Track.length returns for the pieces (NaN included)"),
         (M, "TV.C11.split_limit_pos", "limit > 0 with comparable lengths: exactly the plain pieces of length >= limit"),
+        (M, "TV.C11.split_uid_pieces", "the loop written with the code's i / begin / count (which yields the uid numbers) returns the same pieces"),
+        (M, "TV.C11.split_uid_numbers", "uid <uid>.<count>.<begin>.<end>: the piece is the run begin..end of the track, count numbers the returned pieces 0,1,2,.."),
         (M, "TV.C11.extract_inclusive", "Track.extract(a, b), 0 <= a <= b < size, is the run a..b with both ends"),
         (M, "TV.C11.extract_reversed_empty", "Track.extract(a, b) with a > b is the empty track, never an error"),
         (M, "TV.C11.split_indices", "split(track, [sorted in-range indices], limit): the runs i_k..i_{k+1} that are not short, len-1 of them when limit = 0"),
@@ -176,20 +178,20 @@ class P(Prop):
         (M, "TV.C11.marker_or_ext", "OR mode with infinite values / thresholds"),
         (M, "TV.C11.segmentation_track", "a call in the domain succeeds; the output feature holds the markers of the rows read from the tested features (virtual ones included); every other feature, the names and their order are unchanged"),
         (M, "TV.C11.segmentation_history", "what an already existing output feature held before the call has no influence on the result"),
+        (M, "TV.C11.segmentation_collection", "TrackCollection.segmentation = segmentation() on every track in turn"),
         (M, "TV.C11.listify_one", "a bare feature name / threshold is the one-element list"),
     ]
     partial = []
     open_statements = [
         "Track.length is an uninterpreted function of the piece in the limit theorems (that is what makes them cover NaN lengths); "
         "its float evaluation (sqrt, the order of the additions) is only in the driver (model run at Float) and the correspondence",
-        "the pieces' uids (<uid>.<count>.<begin>.<end>) are not modelled: the statement says nothing about them (reported, not compared)",
         "split(track, <index list>) with unsorted / negative / out-of-range indices: modelled (Python indexing, IndexError) and run in the "
         "correspondence, no theorem beyond extract_reversed_empty",
         "a NaN threshold, thresholds_max = None, tuples as feature lists, an empty track (AnalyticalFeatureError) are outside the domain",
     ]
     modelled = ("segmentation.split(track, <feature name>, limit) (begin / extract(begin, i) inclusive / begin moved before the limit test / "
                 "the two limit tests `limit > 0 and length < limit` and `limit == 0 or (limit > 0 and length >= limit)` / tail when "
-                "begin != 0), split(track, <index list>, limit), Track.extract (range(a, b+1) with Python list indexing, a > b gives an "
+                "begin != 0, the uid numbers count / begin / end of every piece), split(track, <index list>, limit), Track.extract (range(a, b+1) with Python list indexing, a > b gives an "
                 "empty track), Track.length (sum of 3D distances, at Float), TrackCollection.segmentation / split_segmentation, and "
                 "segmentation.segmentation() as a whole: listify of afs_input / thresholds_max, createAnalyticalFeature(af_output) "
                 "(reserved names, empty track, existing feature kept), virtual features x y z, per-observation AND/OR fold of "
@@ -201,8 +203,8 @@ class P(Prop):
             "sequence of calls on the feature table and the whole table is compared; the oracle is about the LAST call. "
             "GEOMETRY: tracks with NaN / infinite coordinates (missing elevation), repeated positions, repeated timestamps; every piece is "
             "compared observation by observation (position, timestamp, every feature value) with the source track, which must be left unchanged. "
-            "split: ALL 2^n marker vectors for n = 1..10 (quick) / 1..12 (thorough) on tracks whose observations carry unique tags; all marker "
-            "vectors n = 1..6 (8) x one observation without elevation at every position; marker features holding values other than 0/1 "
+            "split: ALL 2^n marker vectors for n = 1..10 (quick) / 1..14 (thorough) on tracks whose observations carry unique tags; all marker "
+            "vectors n = 1..6 (9) x one observation without elevation at every position; marker features holding values other than 0/1 "
             "(2, 0.5, NaN, 1.0, True); limit = 0 / 0.0 / default and limit > 0 (incl. a limit equal to a piece length) on lattice coordinates; "
             "a virtual feature (x, y, z, idx) as the marker; a few tracks of 60..200 observations; feature cells holding numpy scalars; "
             "index lists (sorted, and a few unsorted / negative / out of range). segmentation: for 1..3 tested features and both modes every "
@@ -224,10 +226,10 @@ class P(Prop):
 
     # ---------------------------------------------------------------- generators
     def nmax(self, tier):
-        return 12 if tier == "thorough" else 10
+        return 14 if tier == "thorough" else 10
 
     def nmax_nan(self, tier):
-        return 8 if tier == "thorough" else 6
+        return 9 if tier == "thorough" else 6
 
     def exhaustive_scopes(self, tier):
         return ["split(): all 2^n marker vectors for every track size n = 1..%d" % self.nmax(tier),
@@ -314,11 +316,11 @@ class P(Prop):
             out.append({"kind": "splitv", "vals": [rng.choice(toks) if rng.random() < 0.6 else rng.choice(["0", "1"]) for _ in range(n)]})
             if rng.random() < 0.5:
                 out[-1]["env"] = self.rand_env(rng)
-        for _ in range(1500 if quick else 20000):
+        for _ in range(1500 if quick else 60000):
             out.append(self.rand_splitg(rng))
         for _ in range(6 if quick else 60):
             out.append(self.rand_splitg(rng, long=True))
-        for _ in range(400 if quick else 5000):
+        for _ in range(400 if quick else 15000):
             out.append(self.rand_splitidx(rng))
         # grids
         for ths in self.THS:
@@ -342,7 +344,7 @@ class P(Prop):
                         out.append(self.with_history(rng, {"kind": "seg", "mode": mode, "ths": ths[:k], "rows": sh, "split": True}, [Fraction(x, 2) for x in range(-6, 7)]))
         # random
         pool = [Fraction(x, 2) for x in range(-6, 7)]
-        for _ in range(1500 if quick else 30000):
+        for _ in range(1500 if quick else 60000):
             k = rng.randrange(1, 4)
             n = rng.randrange(1, 13)
             r = rng.random()
@@ -359,7 +361,7 @@ class P(Prop):
                 out.append(self.with_history(rng, c, pool))
             if rng.random() < 0.5:
                 out.append(self.with_forms(rng, c))
-        for _ in range(300 if quick else 4000):
+        for _ in range(300 if quick else 12000):
             k = rng.randrange(1, 3)
             ths = [ratstr(rng.choice(pool)) for _ in range(k + (1 if rng.random() < 0.2 else 0))]
             tracks = []
@@ -736,8 +738,13 @@ class P(Prop):
             if r.startswith("err:"):
                 return {"err": r}
         r = replies[0]
-        if k in ("split", "splitv", "splitg", "splitidx"):
+        if k == "splitidx":
             return {"pieces": parse_pieces(r), "content": None}
+        if k in ("split", "splitv", "splitg"):
+            pc, ids = r.split(" ")
+            uid = (case.get("env") or {}).get("uid", 7)
+            return {"pieces": parse_pieces(pc), "content": None,
+                    "uids": [] if ids == "_" else ["%s.%s" % (uid, i) for i in ids.split(";")]}
         if k == "coll":
             mk, pc = r.split(" ")
             return {"markers": ["" if m == "_" else m for m in mk.split("|")], "pieces": parse_pieces(pc), "content": None}
@@ -765,13 +772,17 @@ class P(Prop):
                 return None
             return "impl=%s model=%s" % (impl_out, model_out)
         # canonicalisation: the statement leaves open whether an empty trailing piece is emitted when the last
-        # observation is marked, and says nothing about the pieces' uids (not compared)
+        # observation is marked. The pieces' uids (<uid>.<count>.<begin>.<end>, modelled by `splitU`) are compared on
+        # the split streams; they are not part of the statement, so `spec` never looks at them
+        with_uids = case["kind"] in ("split", "splitv", "splitg")
         def canon(o):
-            o = {k: v for k, v in o.items() if k != "uids"}
+            o = {k: v for k, v in o.items() if k != "uids" or with_uids}
             if case["kind"] == "coll":
                 o["pieces"] = [p for p in o["pieces"] if p]      # one possible empty trailing piece per track
             elif case["kind"] != "splitidx" and o.get("pieces") and o["pieces"][-1] == []:
                 o["pieces"] = o["pieces"][:-1]
+                if with_uids:
+                    o["uids"] = o["uids"][:-1]
             return o
         return Prop.compare(self, case, canon(impl_out), canon(model_out))
 
